@@ -487,6 +487,11 @@ func c08Solo(c *mon.Ctx) {
 		{"e_000_verif_c08_cert_first", corpus.Cert, lint.Community, regC},
 		{"w_zzz_verif_c08_crl_last", corpus.CRL, lint.CABFSMIMEBaselineRequirements, regR},
 		{"e_verif_c08_ocsp_b", corpus.OCSP, lint.AppleRootStorePolicy, regO},
+		// sources that are not among the shipped constants (a private policy): still sources, distinct from each
+		// other and from "Unknown"
+		{"e_verif_c08_cert_house", corpus.Cert, lint.LintSource("Internal_Policy"), regC},
+		{"e_verif_c08_crl_partner", corpus.CRL, lint.LintSource("Partner_Policy"), regR},
+		{"e_verif_c08_ocsp_unknown", corpus.OCSP, lint.UnknownLintSource, regO},
 	}
 	for si, st := range steps {
 		m := md(st.name, st.src)
@@ -519,6 +524,13 @@ func c08Solo(c *mon.Ctx) {
 			{NameFilter: regexp.MustCompile("^" + st.name + "$")},
 			{NameFilter: regexpAll},
 			{IncludeSources: lint.SourceList{st.src}, ExcludeNames: []string{st.name}},
+			{IncludeSources: lint.SourceList{lint.LintSource("Partner_Policy")}},
+			{ExcludeSources: lint.SourceList{lint.LintSource("Partner_Policy")}},
+			{IncludeSources: lint.SourceList{lint.LintSource("Other_Private_Policy")}},
+			{ExcludeSources: lint.SourceList{lint.LintSource("Other_Private_Policy"), lint.LintSource("")}},
+			{IncludeSources: lint.SourceList{lint.UnknownLintSource}},
+			{ExcludeSources: lint.SourceList{lint.UnknownLintSource}},
+			{IncludeSources: lint.SourceList{lint.LintSource("Internal_Policy"), lint.RFC5280}, ExcludeSources: lint.SourceList{lint.LintSource("internal_policy")}},
 		} {
 			c08Judge(c, g, inv, label, o)
 			c.R.Count("addition_filter_judgements", 1)
